@@ -6,16 +6,23 @@ from .. import auxreports_gen as G
 from ..coqeval import eval_checks
 from ..util import workdir
 
-RULE = ("synthetic runs of `whatshap phase` on 1-3 chromosomes x {two trios, trio + unrelated sample (processed "
-        "before or after the trio), quartet (two trios in one family) +/- unrelated sample}, sample order shuffled, child "
-        "haplotypes inherited with recombination probability 0-0.35 per variant, 4-32 error-free reads of 70-380 bp per "
-        "sample and chromosome (optionally with a coverage gap between the two middle variants so that a family has "
-        "several phase sets), 8-25% deliberately wrong VCF genotypes (the reads contradict them), GL present or default "
-        "GQ, optional multi-allelic / ALT-less / duplicate-position records, optionally one chromosome without any "
-        "heterozygous call; options: every combination of --output-read-list / --changed-genotype-list / "
-        "--recombination-list x --distrust-genotypes (+/- --include-homozygous) x --ped (uniform --recombrate from 1.26 "
-        "to 1e6, or --genmap with one --chromosome), optional --chromosome subsets, --no-genetic-haplotyping. "
-        "Corpus first: the F9 shape (two chromosomes, one trio, all lists, full run and --chromosome run) and a "
+RULE = ("synthetic runs of `whatshap phase` on 1-3 chromosomes (names from several pools, not in sorted order) x "
+        "{two trios, trio + 1/2 unrelated samples, quartet (two trios in one family) +/- unrelated sample, two trios + "
+        "unrelated sample, three unrelated samples}; sample names are role-like or drawn from pools with shared "
+        "prefixes / case variants / role words used against their role, VCF column order shuffled, PED lines shuffled, "
+        "optional PED line about absent individuals; child haplotypes inherited with recombination probability 0-0.35 "
+        "per variant; 4-32 error-free reads of 70-380 bp per sample and chromosome (optionally paired, split over two "
+        "BAM files, same read names in every family and chromosome, a coverage gap between the two middle variants); "
+        "8-25% deliberately wrong VCF genotypes (the reads contradict them), with probability up to 0.3 per record in "
+        "two or three samples at once; GL or default GQ; optional stale phase information (a|b + PS) and ./. calls in "
+        "the input; optional multi-allelic / ALT-less / duplicate-position records; optionally one chromosome without "
+        "any heterozygous call; targeted stream: quartets whose pedigree-phased sites (father het, mother hom) enclose "
+        "two all-heterozygous sites connected only by dedicated read pairs (interleaved / nested phase sets in one "
+        "family) with a genotype-forced recombination of one child after them. Options: every combination of "
+        "--output-read-list / --changed-genotype-list / --recombination-list x --distrust-genotypes (+/- "
+        "--include-homozygous) x --ped (uniform --recombrate 1.26-1e6, or --genmap with one --chromosome), "
+        "--chromosome subsets, --sample subsets, --use-ped-samples, --no-genetic-haplotyping, --tag HP, --only-snvs, "
+        "--internal-downsampling 6/15/20, --algorithm heuristic (without --ped). Corpus first: the F9 shape and a "
         "chromosome without anything to phase. A case is one run; it is non-trivial if it requests at least one list "
         "and processes at least two (chromosome, family) instances; distinct = distinct (scenario seed, options).")
 TRUSTED = [
@@ -36,7 +43,10 @@ ASSUMPTIONS = [
     "no_changes_without_distrust assumes that the super-reads reproduce the input genotypes (superreads_conform: what "
     "the solver guarantees without --distrust-genotypes, C01/C05); the frame condition on untouched calls is proved "
     "for the genotype-level model of PhasedVcfWriter.write and compared with the real output VCF (l2_vcf); C04 covers the writer in depth",
-    "algorithm = whatshap (default); --algorithm heuristic/hapchat, --only-snvs, --tag HP, --sample not exercised",
+    "read names are distinct among the members of one family within one input file (whatshap keys reads by (name, "
+    "source file) when it merges the read sets of a family and raises 'duplicate read name' otherwise); "
+    "--algorithm heuristic is exercised only without --ped (with --ped it trips the super-read order assertion of "
+    "run_whatshap or segfaults, independent of the lists); --algorithm hapchat is not exercised",
     "a run of the model that reaches an error value (None) corresponds to a crash of the tool; theorems about file "
     "contents are stated for completed runs (C20_run_completes_refuted records the reachable crash)",
 ]
